@@ -35,7 +35,6 @@ var selfMutants = []selfMutant{
 	{Rule: "T-HASH", File: "html/hash.go", Old: "Script    Hash = 0xa06  // script", New: "Script    Hash = 0xa05  // script", Why: "hash constant length corrupted", Props: []string{"C16", "C09"}},
 	{Rule: "T-HASH", File: "css/hash.go", Old: "	0x2: 0x2605, // media", New: "	0x2: 0x2606, // media", Why: "hash table slot corrupted", Props: []string{"C16", "C08"}},
 	{Rule: "T-TABLES", File: "util.go", Old: "	false, true, true, false, true, true, false, false, // tab, new line, form feed, carriage return\n	false, false, false, false, false, false, false, false,\n	false, false, false, false, false, false, false, false,\n\n	true, false,", New: "	false, true, true, true, true, true, false, false, // tab, new line, form feed, carriage return\n	false, false, false, false, false, false, false, false,\n	false, false, false, false, false, false, false, false,\n\n	true, false,", Why: "vertical tab added to whitespaceTable"},
-	{Rule: "T-ESCLEN", File: "xml/util.go", Old: "n += 3 // &lt;", New: "n += 2 // &lt;", Why: "size increment smaller than the entity"},
 	// structural
 	{Rule: "R-WALK", File: "js/walk.go", Old: "		Walk(v, n.Body)\n		Walk(v, n.Else)\n		Walk(v, n.Cond)", New: "		Walk(v, n.Body)\n		Walk(v, n.Cond)", Why: "IfStmt.Else no longer walked"},
 	{Rule: "R-WALK", File: "js/walk.go", Old: "	case *GroupExpr:\n		Walk(v, n.X)\n", New: "", Why: "arm for *GroupExpr removed"},
